@@ -231,8 +231,9 @@ func (s *sut) version(file, v int) *gast.FileVersion {
 	for len(s.vers[file]) <= v {
 		n := len(s.vers[file])
 		s.vers[file] = append(s.vers[file], &gast.FileVersion{
-			Path:    fmt.Sprintf("/virtual/f%d.go", file),
-			ModTime: epoch.Add(time.Duration(n) * time.Hour),
+			Path: fmt.Sprintf("/virtual/f%d.go", file),
+			// odd versions keep the modification time of their predecessor: only the content hash tells them apart
+			ModTime: epoch.Add(time.Duration(n-n%2) * time.Hour),
 			Hash:    fmt.Sprintf("hash-f%d-v%d", file, n),
 		})
 	}
